@@ -253,6 +253,12 @@ class C16(Prop):
         for _ in range(120 if not thorough else 4000):
             vals.append(cells.rand_cell(rng, types=['int', 'int', 'bits', 'vec', 'map'] , depth=0))
         vals.append(('V', [('I', 1), ('I', I_MIN), ('I', -1)]))
+        # strings: every escape the reader knows, characters a printer might escape although the reader does not know the escape
+        # (apostrophe, question mark, bell, ...), quotes of both styles inside, non-ASCII text
+        for t in ['', 'a', "it's", 'q"q', 'b\\s', 'line\nfeed', 'tab\there', 'cr\rx', "'", '?', 'a b  c', 'é日本', '“curly', '%d {} $x', '#( ~)', '| |', '\\( \\)',
+                  "''", 'x\\', '0x10', '-1']:
+            vals.append(('S', t.encode('utf-8')))
+            vals.append(('V', [('S', t.encode('utf-8')), ('I', 7)]))
         for v in vals:
             if cells.has_tag(v):
                 continue
